@@ -214,7 +214,7 @@ class Dec:
 
 
 class Msg:
-    __slots__ = ('le', 'type', 'flags', 'serial', 'fields', 'raw_fields', 'sig', 'body', 'nbytes', 'fds', 'dirty')
+    __slots__ = ('le', 'type', 'flags', 'serial', 'fields', 'raw_fields', 'sig', 'body', 'nbytes', 'fds', 'dirty', 'braw')
 
     def f(self, code, default=None):
         return self.fields.get(code, default)
@@ -247,6 +247,7 @@ def parse_message(data):
         m.raw_fields.append((code, s, v))
         m.fields[code] = v
     m.sig = m.fields.get(F_SIGNATURE, '')
+    m.braw = bytes(data[d.p:d.p + blen])
     body = Dec(data[d.p:d.p + blen], le, 0)
     m.body = [body.get(s) for s in split_sig(m.sig)]
     m.dirty = d.dirty or body.dirty or body.p != blen
